@@ -975,7 +975,7 @@ class Interp:
             elif is_sym(old):
                 new = Sym('+', (old, d), qtype(n))
             elif isinstance(old, str):
-                new = old[1:] if d == 1 else old
+                new = Ptr(old, d)        # pointer into a C string: keep the base so that p - 1 / p != base work
             else:
                 new = astdb.wrap_int(old + d, qtype(n))
             self.store(lv[0], lv[1], new, n)
@@ -1035,6 +1035,11 @@ class Interp:
     def binop(self, op, a, b, n):
         qt = qtype(n)
         if isinstance(a, Ptr) or isinstance(b, Ptr):
+            # a C string and a pointer into it
+            if isinstance(a, str) and isinstance(b, Ptr) and b.c is a:
+                a = Ptr(a, 0)
+            if isinstance(b, str) and isinstance(a, Ptr) and a.c is b:
+                b = Ptr(b, 0)
             if op == '+':
                 p, i = (a, b) if isinstance(a, Ptr) else (b, a)
                 if is_sym(i):
